@@ -3,7 +3,7 @@ use crate::Error;
 pub fn validate(s: &str) -> Result<(), Error> {
     if s.len() > 255 {
         return Err(Error::MaximumLengthExceeded);
-    } else if !s.chars().all(|c| c.is_alphanumeric() || ".=_-".contains(c)) {
+    } else if !s.chars().all(|c| c.is_ascii_alphanumeric() || ".=_-".contains(c)) {
         return Err(Error::InvalidCharacters);
     } else if s.is_empty() {
         return Err(Error::Empty);
